@@ -2,6 +2,7 @@ package main
 
 import (
 	"fmt"
+	"go/constant"
 	"go/token"
 	"go/types"
 	"strings"
@@ -45,9 +46,26 @@ func pbSizeSource(v ssa.Value) (string, bool) {
 	return "", false
 }
 
-func derivesFromGlobal(v ssa.Value, pkg, name string) bool {
+// derivesFromGlobal: v is a load of package variable pkg.name - or, when the package declares name as a constant
+// instead (a maintainer may turn `var fixedSize = binary.Size(&header{})` into `const fixedSize = 32`), a constant of
+// that value: agreement of writer and reader is then agreement of values.
+func derivesFromGlobal(w *World, v ssa.Value, pkg, name string) bool {
+	kv, isConst := int64(0), false
+	if p := w.Pkg(pkg); p != nil {
+		if nc, ok := p.Members[name].(*ssa.NamedConst); ok && nc.Value != nil && nc.Value.Value != nil {
+			if k, exact := constant.Int64Val(constant.ToInt(nc.Value.Value)); exact {
+				kv, isConst = k, true
+			}
+		}
+	}
 	for _, s := range resolvePhi(stripConv(v)) {
 		s = stripConv(s)
+		if isConst {
+			if k, ok := constInt64(s); ok && k == kv {
+				continue
+			}
+			return false
+		}
 		u, ok := s.(*ssa.UnOp)
 		if !ok || u.Op != token.MUL || !isGlobal(u.X, pkg, name) {
 			return false
@@ -211,7 +229,27 @@ func runC07(c *Ctx, w *World, r *Report) {
 		} else {
 			buf := ios[0].Call.Common().Args[1]
 			mk, ok := buf.(*ssa.MakeSlice)
-			if !ok || !derivesFromGlobal(mk.Len, "pbcmpl", "fixedSize") {
+			okBuf := ok && derivesFromGlobal(w, mk.Len, "pbcmpl", "fixedSize")
+			// make([]byte, K) with a constant K is an array allocation sliced whole in go/ssa
+			if sl, isSl := buf.(*ssa.Slice); isSl && sl.Low == nil && sl.Max == nil {
+				if al, isAl := sl.X.(*ssa.Alloc); isAl {
+					if pt, isP := al.Type().Underlying().(*types.Pointer); isP {
+						if at, isA := pt.Elem().Underlying().(*types.Array); isA {
+							hi := at.Len()
+							if sl.High != nil {
+								hi = -1
+								if k, isC := constInt64(sl.High); isC {
+									hi = k
+								}
+							}
+							if kf, isK := w.NamedConstInt("pbcmpl", "fixedSize"); isK && at.Len() == kf && hi == kf {
+								okBuf = true
+							}
+						}
+					}
+				}
+			}
+			if !okBuf {
 				bad = "the header buffer is not make([]byte, fixedSize)"
 			}
 		}
@@ -249,7 +287,7 @@ func runC07(c *Ctx, w *World, r *Report) {
 				if !ok || src != "GetHeaderSize" && src != "HeaderSize" {
 					continue
 				}
-				if !derivesFromGlobal(side[1], "pbcmpl", "fixedSize") {
+				if !derivesFromGlobal(w, side[1], "pbcmpl", "fixedSize") {
 					continue
 				}
 				return true, (bo.Op == token.EQL) == cd.Pol
